@@ -4,6 +4,8 @@ import (
 	"bytes"
 	"errors"
 	"fmt"
+	"github.com/ipld/go-ipld-prime/linking"
+	cidlink "github.com/ipld/go-ipld-prime/linking/cid"
 	"strings"
 	"time"
 
@@ -134,12 +136,47 @@ func RunC20(t *Trace, st *Stats) *Violation {
 					return viol("deferred/differs-from-direct/has", "op #%d Has(%s) = (%v,%v), direct writer says (%v,%v)", i, b.Spec, got, err, want, werr)
 				}
 			}
+		case "open_write":
+			// the linksystem door: a block write is opened and written to but never committed - no Put
+			b := MakeBlock(op.Blks[0])
+			if pv := safeCall(func() {
+				if w, _, err := dw.BlockWriteOpener()(linking.LinkContext{Ctx: bg}); err == nil {
+					w.Write(b.Data)
+				}
+			}); pv != nil {
+				return viol("deferred/panic/open-write", "BlockWriteOpener panicked: %v", pv)
+			}
 		case "put":
 			b := MakeBlock(op.Blks[0])
 			before := len(log)
 			var err error
-			if pv := safeCall(func() { err = dw.Put(bg, b.Cid.KeyString(), b.Data) }); pv != nil {
+			var early string
+			if pv := safeCall(func() {
+				if op.Arg == 1 {
+					// the same Put through the linksystem door: open a block write, write, commit
+					w, commit, oerr := dw.BlockWriteOpener()(linking.LinkContext{Ctx: bg})
+					if oerr != nil {
+						err = oerr
+						return
+					}
+					w.Write(b.Data)
+					if !started && !closed {
+						if (stream && sink.WriteCalls != 0) || (streamWA && wadisk.WriteCalls != 0) || (!stream && !streamWA && env.FS.Creates != 0) {
+							early = "the output was opened when a block write was opened, before its commit (the Put)"
+						}
+						if len(log) != before {
+							early = "Put callbacks fired when a block write was opened, before its commit (the Put)"
+						}
+					}
+					err = commit(cidlink.Link{Cid: b.Cid})
+					return
+				}
+				err = dw.Put(bg, b.Cid.KeyString(), b.Data)
+			}); pv != nil {
 				return viol("deferred/panic/put", "Put panicked: %v", pv)
+			}
+			if early != "" {
+				return viol("deferred/not-lazy/open-write", "op #%d: %s", i, early)
 			}
 			if closed {
 				if !errors.Is(err, storage.ErrClosed) {
@@ -252,8 +289,12 @@ func GenC20(seed uint64, run int) *Trace {
 			t.Ops = append(t.Ops, Op{Kind: "onput", Arg: r.Intn(2)})
 		case v < 45:
 			t.Ops = append(t.Ops, Op{Kind: "has", Blks: []BlkSpec{Pick(r, alpha)}})
-		case v < 88:
+		case v < 80:
 			t.Ops = append(t.Ops, Op{Kind: "put", Blks: []BlkSpec{Pick(r, alpha)}})
+		case v < 85:
+			t.Ops = append(t.Ops, Op{Kind: "put", Arg: 1, Blks: []BlkSpec{Pick(r, alpha)}}) // through BlockWriteOpener
+		case v < 88:
+			t.Ops = append(t.Ops, Op{Kind: "open_write", Blks: []BlkSpec{Pick(r, alpha)}})
 		default:
 			t.Ops = append(t.Ops, Op{Kind: "close"})
 		}
